@@ -6,7 +6,7 @@ import ast
 from sa.engine.callgraph import calls_in, resolve_call
 from sa.engine.cfg import CFG
 from sa.engine.context import Ctx
-from sa.engine.loader import anorm, AnalysisError, FuncInfo, dotted, norm, short, walk_own
+from sa.engine.loader import anorm, AnalysisError, FuncInfo, dotted, norm, short, walk_own, is_noise
 from sa.engine.loops import LoopAnalysis
 from sa.engine.report import Finding, RuleReport
 from sa.rules.common import DT, X, implementers
@@ -255,7 +255,7 @@ def rule_bytes(ctx: Ctx) -> RuleReport:
         gb = c.methods.get("get_bytes")
         if gb is None:
             continue
-        body = [s for s in gb.node.body if not (isinstance(s, ast.Expr) and isinstance(s.value, ast.Constant))]
+        body = [s for s in gb.node.body if not is_noise(s)]
         txt = [anorm(s, gb.node) for s in body]
         fld = "blob" if "blob" in c.fields else "data"
         fresh = txt in ([f"v0 = io.BytesIO(self.{fld})", "v0.seek(0)", "return v0"], [f"return io.BytesIO(self.{fld})"])
